@@ -60,12 +60,14 @@ func (db *DB) Merge() error {
 	mergePath := db.mergePath()
 	// 如果存在上次 merge 的残留目录, 将其删除
 	if _, err := os.Stat(mergePath); err == nil {
+		verifFsEvent("removeall", mergePath, "")
 		if err := os.RemoveAll(mergePath); err != nil {
 			return err
 		}
 	}
 
 	// 新建 merge 临时目录
+	verifFsEvent("mkdir", mergePath, "")
 	if err := os.MkdirAll(mergePath, os.ModePerm); err != nil {
 		return err
 	}
@@ -106,6 +108,7 @@ func (db *DB) Merge() error {
 				}
 				return err
 			}
+			verifSched("merge.scan")
 			// 比较内存中索引的最新数据, 判断是否为有效数据
 			pos := db.index.Get(logRecord.Key)
 			if pos != nil && pos.Fid == dataFile.ID &&
@@ -233,6 +236,7 @@ func (db *DB) loadMergeFiles() (uint32, error) {
 		// 没有对应重写文件的原数据文件中有效数据已全部重写, 直接删除
 		for fileID := rewrittenNum; fileID < mergeID; fileID++ {
 			destName := datafile.GetFileName(db.options.DirPath, fileID, datafile.DataFileSuffix)
+			verifFsEvent("remove", destName, "")
 			if err := os.Remove(destName); err != nil && !os.IsNotExist(err) {
 				return 0, err
 			}
@@ -248,6 +252,7 @@ func (db *DB) loadMergeFiles() (uint32, error) {
 				return 0, err
 			}
 			destName := datafile.GetFileName(db.options.DirPath, fileID, datafile.DataFileSuffix)
+			verifFsEvent("rename", srcFile, destName)
 			if err := os.Rename(srcFile, destName); err != nil {
 				return 0, err
 			}
@@ -258,6 +263,7 @@ func (db *DB) loadMergeFiles() (uint32, error) {
 	srcHintFile := datafile.GetFileName(mergePath, 0, datafile.HintFileSuffix)
 	destHintFile := datafile.GetFileName(db.options.DirPath, 0, datafile.HintFileSuffix)
 	if _, err := os.Stat(srcHintFile); err == nil {
+		verifFsEvent("rename", srcHintFile, destHintFile)
 		if err := os.Rename(srcHintFile, destHintFile); err != nil {
 			return 0, err
 		}
@@ -266,6 +272,7 @@ func (db *DB) loadMergeFiles() (uint32, error) {
 	}
 
 	// 全部完成后才删除 merge 目录(含完成标识); 中途失败时保留, 下次启动时重试
+	verifFsEvent("removeall", mergePath, "")
 	if err := os.RemoveAll(mergePath); err != nil {
 		return 0, err
 	}
